@@ -347,6 +347,9 @@ def corpus_trees():
         # binding must NOT reach the read after the statement (seeded C03-2)
         [A(1, 'y'), ('try', [A(2, 'x')], [([], None, [A(3, 'x')])], [A(4, 'x')], [R(10, 'y')], True, True), R(11, 'x')],
         [A(1, 'y'), ('try', [A(2, 'x')], [([], (3, 'e1'), [A(4, 'x')]), ([], None, [A(5, 'x')])], [A(6, 'x')], [R(10, 'y')], True, True), R(11, 'x')],
+        # the same name bound twice by one statement: the LAST target wins (a, a = p, q / a = a = v)
+        [A(1, 'a'), ('assign', [], [(2, 'a'), (3, 'a')], 'tuple'), R(10, 'a')],
+        [('assign', [(10, 'b')], [(1, 'a'), (2, 'a')], 'chain'), R(11, 'a'), ('if', [], [('assign', [], [(3, 'a'), (4, 'a')], 'tuple')], [('pass',)], []), R(12, 'a')],
         # early return in a branch (C02 domain; phantom for C03 = K1)
         [('if', [], [A(1, 'x'), ('return',)], [A(2, 'x')]), R(10, 'x')],
     ]
@@ -465,7 +468,8 @@ def api_sample(ctx, src, reads, binds, obs, k):
         for x in flat:
             if x['file'] == fn:
                 # alternatives are identified by (line, name)
-                got.add(binds_by_pos.get(tuple(x['loc'])) or by_line_name.get((x['loc'][0], name), ('?', tuple(x['loc']))))
+                # the reported position must be exactly a binding site of the program
+                got.add(binds_by_pos.get(tuple(x['loc']), ('?', tuple(x['loc']))))
         want = set(a for a in alts if a is not None)
         if got != want:
             bad.append(('location', s, sorted(map(str, got)), sorted(want)))
